@@ -20,6 +20,7 @@
     `precise_error_lt_unit` (the bound against arithmetic with no rounding at all).
 -/
 import GoblVerif.Spec.C01
+import GoblVerif.Generated.CalcFacts
 import GoblVerif.Proofs.NumX
 
 namespace GoblVerif.Props.C01
@@ -133,5 +134,77 @@ example : (calcLine exactOps "EUR" 2 [] .precise
     { qty := ⟨3, 0⟩, item := some { price := some ⟨10005, 3⟩, cur := "", sub := 2, alts := [] },
       discounts := [], charges := [], breakdown := [], taxes := [] }).toOption.map (·.sum) = some (some ⟨300150, 4⟩) := by
   decide
+
+/-! ## pinned source shapes (regenerated facts; tools/pin_calc_expect.py) -/
+
+namespace ExpectCalc
+open GoblVerif.Generated.Calc
+
+theorem calls_calculateLines_as_modelled : calls_calculateLines =
+    ["calculateLine", "Itoa"] := by decide
+theorem conds_calculateLines_as_modelled : conds_calculateLines =
+    ["err := calculateLine(l, cur, rates, rr); err != nil"] := by decide
+theorem calls_calculateLine_as_modelled : calls_calculateLine =
+    ["Zero", "Def", "len", "calculateSubLine", "Itoa", "len", "calculateSubLine", "Itoa", "Add", "MatchPrecision", "Rescale", "determineSubLinePrecision", "calculateLineItemPrice", "Exp", "RescaleUp", "Multiply", "ApplyRoundingRule", "calculateLineDiscounts", "calculateLineCharges"] := by decide
+theorem conds_calculateLine_as_modelled : conds_calculateLine =
+    ["l.Item == nil", "len(l.Substituted) > 0", "err := calculateSubLine(sl, cur, rates, rr); err != nil", "len(l.Breakdown) > 0", "err := calculateSubLine(sl, cur, rates, rr); err != nil", "sl.Total != nil", "hasPrice", "l.Item.Price == nil", "err := calculateLineItemPrice(l.Item, cur, rates); err != nil", "rr == tax.RoundingRulePrecise"] := by decide
+theorem calls_calculateSubLine_as_modelled : calls_calculateSubLine =
+    ["calculateLineItemPrice", "Zero", "Def", "RescaleUp", "Exp", "Multiply", "ApplyRoundingRule", "calculateLineDiscounts", "calculateLineCharges"] := by decide
+theorem conds_calculateSubLine_as_modelled : conds_calculateSubLine =
+    ["sl.Item == nil", "sl.Item.Price == nil", "err := calculateLineItemPrice(sl.Item, cur, rates); err != nil", "rr == tax.RoundingRulePrecise"] := by decide
+theorem calls_calculateLineItemPrice_as_modelled : calls_calculateLineItemPrice =
+    ["Def", "Errorf", "MatchPrecision", "Zero", "Def", "MatchPrecision", "Zero", "Def", "Convert", "Errorf"] := by decide
+theorem conds_calculateLineItemPrice_as_modelled : conds_calculateLineItemPrice =
+    ["icur == currency.CodeEmpty", "icur.Def() == nil", "item.Currency == currency.CodeEmpty || item.Currency == cur", "ap.Currency == cur", "np == nil"] := by decide
+theorem calls_calculateLineDiscounts_as_modelled : calls_calculateLineDiscounts =
+    ["Def", "IsZero", "RescaleUp", "RescaleUp", "ApplyRoundingRule", "Of", "RescaleUp", "Subtract"] := by decide
+theorem conds_calculateLineDiscounts_as_modelled : conds_calculateLineDiscounts =
+    ["d.Percent != nil && !d.Percent.IsZero()", "d.Base != nil"] := by decide
+theorem calls_calculateLineCharges_as_modelled : calls_calculateLineCharges =
+    ["Def", "IsZero", "RescaleUp", "RescaleUp", "ApplyRoundingRule", "Of", "Multiply", "RescaleUp", "Add"] := by decide
+theorem conds_calculateLineCharges_as_modelled : conds_calculateLineCharges =
+    ["c.Percent != nil && !c.Percent.IsZero()", "c.Base != nil", "c.Rate != nil", "c.Quantity != nil"] := by decide
+theorem calls_calculateLineSum_as_modelled : calls_calculateLineSum =
+    ["Zero", "Def", "MatchPrecision", "Add"] := by decide
+theorem conds_calculateLineSum_as_modelled : conds_calculateLineSum =
+    ["l.Total != nil"] := by decide
+theorem calls_determineSubLinePrecision_as_modelled : calls_determineSubLinePrecision =
+    ["uint32", "Exp"] := by decide
+theorem conds_determineSubLinePrecision_as_modelled : conds_determineSubLinePrecision =
+    ["sl.Item == nil || sl.Item.Price == nil", "x > e"] := by decide
+theorem calls_ApplyRoundingRule_as_modelled : calls_ApplyRoundingRule =
+    ["Def", "Rescale", "RescaleUp"] := by decide
+theorem conds_ApplyRoundingRule_as_modelled : conds_ApplyRoundingRule =
+    [] := by decide
+theorem calls_Amount_RescaleUp_as_modelled : calls_Amount_RescaleUp =
+    ["Rescale"] := by decide
+theorem conds_Amount_RescaleUp_as_modelled : conds_Amount_RescaleUp =
+    ["exp > a.exp"] := by decide
+theorem calls_Amount_RescaleDown_as_modelled : calls_Amount_RescaleDown =
+    ["Rescale"] := by decide
+theorem conds_Amount_RescaleDown_as_modelled : conds_Amount_RescaleDown =
+    ["exp < a.exp"] := by decide
+theorem calls_Amount_MatchPrecision_as_modelled : calls_Amount_MatchPrecision =
+    ["RescaleUp"] := by decide
+theorem conds_Amount_MatchPrecision_as_modelled : conds_Amount_MatchPrecision =
+    [] := by decide
+theorem calls_Amount_Upscale_as_modelled : calls_Amount_Upscale =
+    ["Rescale", "Exp"] := by decide
+theorem conds_Amount_Upscale_as_modelled : conds_Amount_Upscale =
+    [] := by decide
+theorem calls_Percentage_Of_as_modelled : calls_Percentage_Of =
+    ["Multiply"] := by decide
+theorem conds_Percentage_Of_as_modelled : conds_Percentage_Of =
+    [] := by decide
+theorem calls_Percentage_From_as_modelled : calls_Percentage_From =
+    ["Divide", "Factor", "Subtract"] := by decide
+theorem conds_Percentage_From_as_modelled : conds_Percentage_From =
+    [] := by decide
+theorem calls_Percentage_Factor_as_modelled : calls_Percentage_Factor =
+    ["Add"] := by decide
+theorem conds_Percentage_Factor_as_modelled : conds_Percentage_Factor =
+    [] := by decide
+
+end ExpectCalc
 
 end GoblVerif.Props.C01
